@@ -25,7 +25,7 @@ func (op *Op) streamOp() bool {
 func (op *Op) historyOp() bool {
 	switch op.Kind {
 	case "AppendFn", "AppendM", "Sprintf", "Decompose", "ComposeRow", "Scribble",
-		"UnmarshalJSON", "UnmarshalText", "UnmarshalBinary", "Compose", "Sscan",
+		"UnmarshalJSON", "UnmarshalText", "UnmarshalBinary", "Compose", "Sscan", "ScanState",
 		"Int", "Rat", "Float", "JSONRT", "JSONDoc":
 		return true
 	}
